@@ -23,7 +23,7 @@ if False:
     from .project import Project
 
 IMPORT_DELIMETERS = string.whitespace + '(,'
-IMPORT_END_DELIMETERS = string.whitespace + '),.;(:'
+IMPORT_END_DELIMETERS = string.whitespace + '),.;(:[\\'
 
 
 class Unresolved(object):
